@@ -335,6 +335,34 @@ theorem sel_range_shape (m : Mesh) (hm : m.Inv) (dim : String) (x y : Rat) (g : 
       · rw [e3]; exact hm.1.2.2.2.2.1
       · show g.n.length = g.ndim; omega
 
+/-- The overlap test of `Mesh.sel` for subregions (half a cell of margin on both sides): for a
+subregion made of whole cells `s₁ … s₂-1` and a selection keeping cells `k₁ … k₂`, the subregion
+is dropped exactly when the two share no whole cell. -/
+theorem range_sub_dropped_iff (L c : Rat) (hc : 0 < c) (k1 k2 s1 s2 : Nat) :
+    ((L + ((k2 : Rat) + 1) * c) - c / 2 ≤ L + (s1 : Rat) * c ∨ (L + (s2 : Rat) * c) - c / 2 ≤ L + (k1 : Rat) * c)
+      ↔ (k2 + 1 ≤ s1 ∨ s2 ≤ k1) := by
+  constructor
+  · rintro (h | h)
+    · left
+      have : (k2 : Rat) < (s1 : Rat) := by
+        by_contra hcon; rw [not_lt] at hcon
+        have := mul_le_mul_of_nonneg_right hcon hc.le; nlinarith
+      have : k2 < s1 := by exact_mod_cast this
+      omega
+    · right
+      have : (s2 : Rat) < (k1 : Rat) + 1 := by
+        by_contra hcon; rw [not_lt] at hcon
+        have := mul_le_mul_of_nonneg_right hcon hc.le; nlinarith
+      have : s2 < k1 + 1 := by exact_mod_cast this
+      omega
+  · rintro (h | h)
+    · left
+      have : (k2 : Rat) + 1 ≤ (s1 : Rat) := by exact_mod_cast h
+      nlinarith
+    · right
+      have : (s2 : Rat) ≤ (k1 : Rat) := by exact_mod_cast h
+      nlinarith
+
 /-- `Field.sel` with a range: the centre of every result cell `j` lies in the source region, in
 the source cell obtained by shifting `j` by `k₁` along the chosen axis, and the result holds
 exactly that cell's value and validity. -/
